@@ -22,7 +22,7 @@
 (***************************************************************************)
 EXTENDS SchemaLang, WireFormat
 
-CONSTANTS Family,     \* "single" | "multi" | "svc" | "either" | "mutant" | "evolve"
+CONSTANTS Family,     \* "single" | "multi" | "svc" | "either" | "mutant" | "evolve" | "lexical"
           MaxFields   \* number of fields of Rec in the multi family; number of edits in the evolve family
 
 \* ------------------------------------------------------------------ worlds
@@ -387,6 +387,18 @@ Mutants ==
 \* mutual struct recursion needs two changes of the base, it is one broken rule at two sites
 MutualCycle == M("struct_cycle", "P", WithDefs([BaseDefs EXCEPT ![IP] = [BaseDefs[IP] EXCEPT !.sfields[1].type = Ref("Q")]]))
 
+\* text that the lexer must refuse (C14: the compiler never exits successfully after a lexical error)
+BadTexts == <<
+    [name |-> "open-comment", raw |-> "/* never closed"],
+    [name |-> "open-string", raw |-> "\"never closed"],
+    [name |-> "bad-escape", raw |-> "\"bad \\q escape\""],
+    [name |-> "bad-octal", raw |-> "08"],
+    [name |-> "float", raw |-> "1.5"],
+    [name |-> "char", raw |-> "'c'"],
+    [name |-> "raw-string", raw |-> "`raw`"],
+    [name |-> "at-sign", raw |-> "@"],
+    [name |-> "huge-int", raw |-> "99999999999999999999"] >>
+
 \* ------------------------------------------------------------------ the generator
 VARIABLES case          \* [kind, world, ...]
 svars == <<file, case>>
@@ -421,6 +433,11 @@ SInit ==
                  LET base == EvoBases[bi] \o (IF s = "plain" THEN <<F("ext", Imp("pkgb", "Ext"), "300")>> ELSE <<>>)
                  IN case = [verdict |-> "evolving", shape |-> s, nfiles |-> 1, svc |-> FALSE, world |-> World(s, 1, base, FALSE), rule |-> "", name |-> "",
                             a |-> base, b |-> base, edits |-> <<>>]
+         [] Family = "lexical" ->
+              \* one piece of text that is not a token of the language, inserted at any token boundary of the base schema
+              \E b \in DOMAIN BadTexts, pos \in 0..Len(FileTokens(BaseWorld[1].files[1].ast)) :
+                 case = [verdict |-> "reject", shape |-> "plain", nfiles |-> 1, svc |-> TRUE, world |-> BaseWorld, rule |-> "lexical",
+                         name |-> BadTexts[b].name, lex |-> [pos |-> pos, raw |-> BadTexts[b].raw]]
          [] Family = "mutant" ->
               \E m \in Mutants \cup {MutualCycle} :
                  case = [verdict |-> "reject", shape |-> "plain", nfiles |-> 1, svc |-> TRUE, world |-> m.world, rule |-> m.rule, name |-> m.name]
@@ -463,7 +480,8 @@ Complete == case.verdict \notin {"building", "evolving"}
 VerdictConsistent ==
     Complete =>
       LET vs == Violations(case.world) IN
-      CASE case.verdict = "accept" -> vs = {} /\ (Family = "evolve" => Violations(World(case.shape, 1, case.b, FALSE)) = {})
+      CASE case.rule = "lexical" -> vs = {}        \* the base schema is valid: only the inserted text is wrong
+        [] case.verdict = "accept" -> vs = {} /\ (Family = "evolve" => Violations(World(case.shape, 1, case.b, FALSE)) = {})
         [] case.verdict = "either" -> vs = {}
         [] case.verdict = "reject" -> V(case.rule, case.name) \in vs /\ \A x \in vs : x.rule = case.rule
 \* tags of an accepted message are distinct, so the dynamic value is well defined
@@ -497,7 +515,13 @@ EvolveRecord ==
                   [bvals |-> [i \in DOMAIN bfs |->
                        LET S == {j \in DOMAIN afs : afs[j].lit = bfs[i].lit}
                        IN IF S = {} THEN Unset ELSE aruns[r].vals[CHOOSE j \in S : TRUE]]]]]
+\* lexical family: the bad text goes in front of token pos + 1 of the compiled file
+LexFiles ==
+    LET fs == Files(case.world)
+        toks == fs[1].files[1].tokens
+        bad == [raw |-> case.lex.raw]
+    IN [fs EXCEPT ![1].files[1].tokens = SubSeq(toks, 1, case.lex.pos) \o <<bad>> \o SubSeq(toks, case.lex.pos + 1, Len(toks))]
 SRecord == [verdict |-> case.verdict, rule |-> case.rule, name |-> case.name, shape |-> case.shape, nfiles |-> case.nfiles, svc |-> case.svc,
-            pkgs |-> Files(case.world), sem |-> SemRecord, names |-> Names, evolve |-> EvolveRecord]
+            pkgs |-> IF Family = "lexical" THEN LexFiles ELSE Files(case.world), sem |-> SemRecord, names |-> Names, evolve |-> EvolveRecord]
 SEmit == Complete => PrintT(ToJson(SRecord))
 =============================================================================
